@@ -56,7 +56,7 @@ func runC12(c *Ctx) {
 		return
 	}
 	// decoder reads r.Body
-	dd := describe(argsOf(decode)[0])
+	dd := describeArg(decode, 0)
 	r.Check("C12.write-gate", "handleUpload/decoder reads the request body", gd.Pos(decode.Pos()), dd == "encoding/json.NewDecoder(param:r.Body)", "got "+dd)
 
 	// storage writes
@@ -95,7 +95,7 @@ func runC12(c *Ctx) {
 		// alternative accepted form: json.Unmarshal(io.ReadAll(r.Body))
 		if !okWhole {
 			for _, u := range callsIn(h, "encoding/json.Unmarshal") {
-				if strings.HasPrefix(describe(argsOf(u)[0]), "io.ReadAll(param:r.Body)") && hasFact(facts, errNilOf(u.(*ssa.Call))) {
+				if strings.HasPrefix(describeArg(u, 0), "io.ReadAll(param:r.Body)") && hasFact(facts, errNilOf(u.(*ssa.Call))) {
 					okWhole = true
 				}
 			}
@@ -123,7 +123,7 @@ func runC12(c *Ctx) {
 	}
 	// the encoded value is the validated report
 	for _, cs := range callsIn(h, "(*encoding/json.Encoder).Encode") {
-		d := describe(argsOf(cs)[1])
+		d := describeArg(cs, 1)
 		okRep := false
 		switch x := strip(argsOf(cs)[1]).(type) {
 		case *ssa.Alloc:
@@ -135,7 +135,7 @@ func runC12(c *Ctx) {
 		}
 		r.Check("C12.write-gate", "handleUpload/stores the validated report", gd.Pos(cs.Pos()), okRep, "the value encoded into storage must be the report that was validated (or a by-value copy of it); got "+d)
 		// encoder writes into the storage writer
-		ed := describe(argsOf(cs)[0])
+		ed := describeArg(cs, 0)
 		r.Check("C12.write-gate", "handleUpload/encoder writes to the storage object", gd.Pos(cs.Pos()), strings.Contains(ed, ".NewWriter(") && strings.Contains(ed, ".Object("), "got "+ed)
 	}
 
@@ -145,7 +145,7 @@ func runC12(c *Ctx) {
 		if !strings.HasSuffix(n, ".BucketHandle).Object") {
 			continue
 		}
-		nm := canon(describe(argsOf(cs)[0]), cs)
+		nm := canon(describeArg(cs, 0), cs)
 		want := `fmt.Sprintf("%s/%g.json", [alloc:REPORT.Week, alloc:REPORT.X])`
 		r.Check("C12.name", "handleUpload/object name", gd.Pos(cs.Pos()), nm == want, "the object must be named <Week>/<X>.json from the validated report; got "+nm)
 		bd := describe(cs.Common().Value)
@@ -364,7 +364,7 @@ func c12Middleware(c *Ctx, gd *Module) {
 					n := calleeName(&cl.Call)
 					names = append(names, n[strings.LastIndex(n, ".")+1:])
 					if strings.HasSuffix(n, ".RequestSize") {
-						sizeArg = describe(argsOf(cl)[0])
+						sizeArg = describeArg(cl, 0)
 					}
 				}
 			}
@@ -385,10 +385,10 @@ func c12Middleware(c *Ctx, gd *Module) {
 	for _, b := range nh.Blocks {
 		if ret, ok := b.Instrs[len(b.Instrs)-1].(*ssa.Return); ok {
 			if cl, ok := strip(ret.Results[0]).(*ssa.Call); ok && cl.Call.Value == ssa.Value(chain) {
-				muxd := describe(argsOf(cl)[0])
+				muxd := describeArg(cl, 0)
 				for _, cs := range callsIn(nh, "(*net/http.ServeMux).Handle") {
 					pat, _ := constOf(argsOf(cs)[1])
-					if pat == "/upload/" && describe(argsOf(cs)[0]) == muxd && strings.Contains(describe(argsOf(cs)[2]), "handleUpload(") {
+					if pat == "/upload/" && describeArg(cs, 0) == muxd && strings.Contains(describeArg(cs, 2), "handleUpload(") {
 						okRet = true
 					}
 				}
